@@ -53,6 +53,27 @@ NOTES = {
  "C18b": "needs an I/O failure during a resizing open: C08 reports the hang as an exact deadlock; C18 (real file system) cannot inject it",
 }
 
+NOTES.update({
+ "C01e": "spare free-list page at the end of the chain not written: needs a free list that fills its pages exactly (123 regions at 1 KiB) on recycled list pages, then a reopen; not a crash effect, reported by the alignment sweeps of C10 and C11's capacity probe (the same sweep k one-page regions + a wide one that C10d needed); C01's histories have no 123-region free lists",
+ "C03e": "Page.Free drops the overwrite page but keeps the mapping entry: needs a page that is overwritten, freed before any checkpoint, re-allocated and written in place (7 operations past the 'overwritten' seed, one more than C03's quick seed depth): seed 'overwritten-freed' added to C03 (both tiers)",
+ "C04e": "same effect as seeded C07 (page back on the free list twice after a rollback) through a different site (dataAllocator.Free fast path); no strengthening needed",
+ "C07e": "mergeRegionLists returns its argument when the second list is empty, so a failed commit has already cut the live free list: needs a region straddling the limit, a transaction that frees nothing and a commit that fails: an I/O failure, so C08's shrinking-open-under-faults run with the memory-vs-disk oracle reports it; C07 injects no failures (its 'failed Commit' cases are the ones the API produces without a fault)",
+ "C08e": "restoreMeta forgets the 'stale header may be on disk' flag although zeroing it failed: needs a failure window of three I/O calls (final sync, forced sync of the rollback, zero-header write): reported by C08 as an open that fails although the failures have stopped (class fault/open-failed-without-failure)",
+ "C12e": "NOT REPORTED and, as far as I could establish, not reachable through the API: the demonstration calls the meta allocator directly (5 pages wanted, 2 data pages left behind the end marker of a fresh file). Histories 'fill a fresh 64-page file up to its last k pages (k=1,2,3,5), then overflow-enabled transactions overwriting 1, 2 or all pages' produce identical allocator traces with and without the change (check.sh replay XTRC). The author's own queue sweep (17 file sizes x 5 event sizes x 12 cycles) never reached the branch either. The first-fill seeds were added to C04's overflow runs anyway; kept for the record as an allocator-level change without an observable consequence I can state",
+ "C13e": "read transactions check page ids against the live end marker: C13's race pass reports the unsynchronised read against allocFromArea of the producer's commit; C15 reports the API-level consequence (reader with an open writer gets a page beyond its snapshot, the state seeded C15 needed); C02's scenarios never ask for an id beyond the snapshot",
+ "C14e": "initial mapping no longer covers a file that is larger than its limit: needs a shrinking open that leaves the free-list page behind the new limit, then a plain open; C14's memory-vs-disk oracle (second open of the current disk contents) and C10's reopen report it; no strengthening needed",
+})
+NEEDS = {
+ "C01e": "free list that fits exactly k list pages while k+1 are reserved, spare page recycled from an older free list, then reopen and allocate",
+ "C03e": "overwrite a committed page, free it before any checkpoint, allocate the same id again, write it, read it (also after reopen)",
+ "C04e": "take a page from the free list, free it in the same transaction, roll back, allocate and commit it, allocate again",
+ "C07e": "bounded file with a free region straddling the limit and ending at the end marker; a transaction that frees no page; its Commit fails on write or fsync; one further successful commit",
+ "C08e": "commit fails at its final sync and the next two I/O calls (forced sync, zero-header write) fail too; failures stop; the next transaction re-uses the pages and fails or crashes before its header; reopen",
+ "C12e": "white-box only: meta allocator asked for more pages than the data pages left behind the end marker of a fresh, never cycled, bounded file, inside an overflow-enabled transaction",
+ "C13e": "a reader asks for a page id while a producer commit that moves the data end marker sits between allocator.Commit and the exclusive lock",
+ "C14e": "meta area created at the end of the data area (no InitMetaArea), shrink below the free-list page, close, plain open",
+}
+
 def main():
     res = collections.defaultdict(dict)
     p = os.path.join(SEED, "RESULTS.tsv")
@@ -81,11 +102,11 @@ def main():
                     summary = l[:300]; break
         meta = {
           "seeded_change": name,
-          "property_broken": name[:3],
+          "property_broken": {"C12e": "C04 (page handed out twice inside the allocator; the author was asked for C12)"}.get(name, name[:3]),
           "author": "independent sub-agent given only the property text and a scratch worktree of /repo",
           "patch": "patch.diff", "demonstration": demos,
           "report": "zz_demo_REPORT.md" if os.path.exists(rep) else None,
-          "needs_to_manifest": "see the report's section on what it needs to manifest",
+          "needs_to_manifest": NEEDS.get(name, "see the report's section on what it needs to manifest"),
           "confirmed_by_me": {
             "commands": ["go test -vet=off -count=1 ./...   (change applied, demonstration moved aside)",
                          "go test -vet=off -count=1 %s -run 'ZZ|zz|Demo' <pkg>   (change applied)" % conf.get("tags", ""),
